@@ -1,7 +1,7 @@
 """C02 — one note event per tick; lanes are exactly the lanes written."""
 from __future__ import annotations
 
-from .. import gen
+from .. import gen, impl
 from .. import framework as fw
 from . import inst_common as ic
 
@@ -52,8 +52,48 @@ def slice(ctx: fw.Ctx) -> fw.Outcome:
     ic.run(ctx, out, cases, project, lambda tl: [(t["tick"], t["lanes"]) for t in tl], "note ticks and lanes",
            lambda src: any(len(g.lanes) + g.tap + g.forced >= 2 for tr in src.tracks for g in tr.groups))
     ic.stable_under_reads(ctx, out, cases, "note events")
+    long_sections(ctx, out)
     return out
 
 
+def long_text(nticks, lanes, every):
+    body = "".join("".join(f"  {7 * k} = N {l} 0\n" for l in lanes) + (f"  {7 * k} = S 2 3\n" if k % every == 0 else "") for k in range(nticks))
+    return "[Song]\n{\n  Resolution = 192\n}\n[SyncTrack]\n{\n  0 = TS 4\n  0 = B 120000\n}\n[Events]\n{\n}\n[ExpertSingle]\n{\n" + body + "}\n"
+
+
+def long_sections(ctx, out):
+    """sections whose line count passes the sizes at which buffers, counters and "sane maximum" limits sit (2^8, 2^12, 2^16 lines; thorough:
+    2^18 too): one event per written tick, the written lanes, to the very last line — against the text itself"""
+    ins, dif = impl.enums()
+    sizes = [(90, [0, 1, 2], 50), (1400, [1, 3, 4], 100), (22000, [0, 1, 2], 100)] + ([(90000, [2, 3, 4], 1000)] if ctx.tier == "thorough" else [])
+    for nticks, lanes, every in sizes:
+        text = long_text(nticks, lanes, every)
+        rp = {"op": "long", "nticks": nticks, "lanes": lanes, "every": every}
+        out.case("L" + fw.h(rp), True, {"lines": text.count("\n")}, tags=["long-section"])
+        c, e, _ = impl.parse(text)
+        if c is None:
+            out.violation("long-" + fw.h(rp), f"a well-formed section of {text.count(chr(10))} lines raised {impl.err_name(e)}", rp, observed=impl.err_name(e), promised="parses")
+            continue
+        ev = c.instrument_tracks[ins[0]][dif[3]].note_events
+        want_l = "".join("1" if l in lanes else "0" for l in range(5))
+        got = [(n.tick, "".join(str(b) for b in n.note.value)) for n in ev]
+        want = [(7 * k, want_l) for k in range(nticks)]
+        if got != want:
+            k = next((i for i, (a, b) in enumerate(zip(got, want)) if a != b), min(len(got), len(want)))
+            out.violation("long-" + fw.h(rp), f"a section of {text.count(chr(10))} lines: {len(got)} note events for {nticks} written ticks; first difference at event #{k}: "
+                          f"{got[k] if k < len(got) else None} vs written {want[k] if k < len(want) else None}", rp,
+                          observed=[len(got), got[k] if k < len(got) else None], promised=[nticks, want[k] if k < len(want) else None])
+
+
 def replay(ctx, data):
+    if data.get("op") == "long":
+        o = fw.Outcome("")
+        ins, dif = impl.enums()
+        c, e, _ = impl.parse(long_text(data["nticks"], data["lanes"], data["every"]))
+        if c is None:
+            return True, impl.err_name(e)
+        ev = c.instrument_tracks[ins[0]][dif[3]].note_events
+        want_l = "".join("1" if l in data["lanes"] else "0" for l in range(5))
+        got = [(n.tick, "".join(str(b) for b in n.note.value)) for n in ev]
+        return got != [(7 * k, want_l) for k in range(data["nticks"])], f"{len(got)} events"
     return ic.replay_chart(data, lambda notes: [[n["tick"], n["lanes"]] for n in notes])
